@@ -351,6 +351,7 @@ func (d *Device) ProcessEvents(inputEvents <-chan *input.InputEvent) {
 		log.Info("active midi notes cleanup", d.logFields(logger.Debug)...)
 	}
 
+	d.eventProcessMutex.Lock() // the LED refresh goroutine may still be inside an iteration that reads the trackers
 	for evcode := range d.noteTracker {
 		d.NoteOff(&input.InputEvent{
 			Source: input.Handler{
@@ -368,6 +369,7 @@ func (d *Device) ProcessEvents(inputEvents <-chan *input.InputEvent) {
 	for identifier := range d.analogNoteTracker {
 		d.AnalogNoteOff(identifier, &input.InputEvent{})
 	}
+	d.eventProcessMutex.Unlock()
 
 	log.Info("virtual midi device waiting...", d.logFields(logger.Debug)...)
 	wg.Wait()
